@@ -1,1 +1,366 @@
+(* Lemmas on the reader state machine (TransfacReader.v), for an arbitrary record parser:
+   - the whole run depends on the concatenation of the chunks only (chunk independence);
+   - totality (C15): if the record parser never answers Incomplete / out-of-fuel, then
+     `Reader::new` and every `next` return a record, an error or the end of input -- the
+     slice `&buffer[last..]` is always in bounds and on a character boundary, the loops end
+     (measure: number of lines left in the stream), and a consumer that stops at the first
+     error or at the end of input stops (every record consumes a line of the stream or the
+     buffer filled by `new`). *)
+From Coq Require Import List Bool Arith NArith Lia.
+From Coq Require Import Init.Byte.
+From LMBase Require Import Res.
+From LMTransfac Require Import Bytes Stream Nom TransfacParse TransfacReader StreamProofs ParseProofs.
+Import ListNotations.
 
+(* ---- chunk independence ---- *)
+
+Section Chunks.
+  Variable parse : parser record.
+
+  (* results that carry a stream are compared up to the bytes of that stream *)
+  Definition same4 {A B C} (x y : res (A * B * C * stream)) : Prop :=
+    match x, y with
+    | Ok (a, b, c, s), Ok (a', b', c', s') => a = a' /\ b = b' /\ c = c' /\ concat s = concat s'
+    | Err c, Err c' => c = c'
+    | Panic n, Panic n' => n = n'
+    | OutOfFuel, OutOfFuel => True
+    | _, _ => False
+    end.
+
+  Lemma read_line_same s1 s2 buf :
+    concat s1 = concat s2 ->
+    exists r b t1 t2, read_line s1 buf = (r, b, t1) /\ read_line s2 buf = (r, b, t2) /\
+                      concat t1 = concat t2.
+  Proof.
+    intros H. destruct (read_line_chunk_independent_lemma s1 s2 buf H) as [A B].
+    destruct (read_line s1 buf) as [[r1 b1] t1], (read_line s2 buf) as [[r2 b2] t2]; simpl in *.
+    inversion A; subst. exists r2, b2, t1, t2. auto.
+  Qed.
+
+  Lemma new_loop_same : forall fuel buf last s1 s2,
+    concat s1 = concat s2 -> same4 (new_loop fuel buf last s1) (new_loop fuel buf last s2).
+  Proof.
+    induction fuel as [|f IH]; intros buf last s1 s2 H; cbn [new_loop]; [exact I|].
+    destruct (read_line_same s1 s2 buf H) as (r & b & t1 & t2 & E1 & E2 & Ht).
+    rewrite E1, E2. destruct r as [[|n]|]; cbn [same4]; try (repeat split; auto; fail).
+    destruct (str_from b last); cbn [rbind same4]; auto.
+    destruct (starts_with slashes a); cbn [same4]; [repeat split; auto|apply IH; exact Ht].
+  Qed.
+
+  Lemma next_loop_same : forall fuel buf last s1 s2,
+    concat s1 = concat s2 -> same4 (next_loop fuel buf last s1) (next_loop fuel buf last s2).
+  Proof.
+    induction fuel as [|f IH]; intros buf last s1 s2 H; cbn [next_loop]; [exact I|].
+    destruct (read_line_same s1 s2 buf H) as (r & b & t1 & t2 & E1 & E2 & Ht).
+    rewrite E1, E2. destruct r as [[|n]|]; cbn [same4]; try (repeat split; auto; fail).
+    destruct (str_from b last); cbn [rbind same4]; auto.
+    destruct (starts_with slashes a); cbn [same4]; [repeat split; auto|apply IH; exact Ht].
+  Qed.
+
+  (* two reader states that differ in the chunking of the unread bytes only *)
+  Definition st_same (a b : rstate) : Prop :=
+    st_buf a = st_buf b /\ st_last a = st_last b /\ st_err a = st_err b /\
+    st_version a = st_version b /\ concat (st_src a) = concat (st_src b).
+
+  Definition same_st (x y : res rstate) : Prop :=
+    match x, y with
+    | Ok a, Ok b => st_same a b
+    | Err c, Err c' => c = c'
+    | Panic n, Panic n' => n = n'
+    | OutOfFuel, OutOfFuel => True
+    | _, _ => False
+    end.
+
+  Lemma reader_new_same fuel s1 s2 :
+    concat s1 = concat s2 -> same_st (reader_new fuel s1) (reader_new fuel s2).
+  Proof.
+    intros H. unfold reader_new. pose proof (new_loop_same fuel [] 0 s1 s2 H) as L.
+    destruct (new_loop fuel [] 0 s1) as [[[[b1 l1] e1] t1]| | |],
+             (new_loop fuel [] 0 s2) as [[[[b2 l2] e2] t2]| | |]; cbn [same4] in L; try contradiction;
+      cbn [rbind same_st]; auto.
+    destruct L as (-> & -> & -> & Ht).
+    destruct (starts_with [x56; x56] b2).
+    - destruct (parse_version b2); simpl; unfold st_same; simpl; repeat split; auto.
+    - simpl. unfold st_same; simpl; repeat split; auto.
+  Qed.
+
+  Definition same_step (x y : res (outcome * rstate)) : Prop :=
+    match x, y with
+    | Ok (o, a), Ok (o', b) => o = o' /\ st_same a b
+    | Err c, Err c' => c = c'
+    | Panic n, Panic n' => n = n'
+    | OutOfFuel, OutOfFuel => True
+    | _, _ => False
+    end.
+
+  Lemma reader_next_same fuel a b :
+    st_same a b -> same_step (reader_next parse fuel a) (reader_next parse fuel b).
+  Proof.
+    intros (Hb & Hl & He & Hv & Hs). unfold reader_next.
+    destruct a as [ba la ea va sa], b as [bb lb eb vb sb]; cbn [st_buf st_last st_err st_version st_src] in *.
+    subst.
+    assert (T : forall (b : str) (l : nat) (t1 t2 : stream), concat t1 = concat t2 ->
+              same_step
+                (match b with
+                 | [] => Ok (OEnd, mkSt b l None vb t1)
+                 | _ => match parse b with
+                        | POk r _ => Ok (ORec r, mkSt [] 0 None vb t1)
+                        | bad => e <- error_from bad ;; Ok (OErr e, mkSt b l None vb t1)
+                        end
+                 end)
+                (match b with
+                 | [] => Ok (OEnd, mkSt b l None vb t2)
+                 | _ => match parse b with
+                        | POk r _ => Ok (ORec r, mkSt [] 0 None vb t2)
+                        | bad => e <- error_from bad ;; Ok (OErr e, mkSt b l None vb t2)
+                        end
+                 end)).
+    { intros b l t1 t2 Ht. destruct b as [|x b0]; [simpl; unfold st_same; simpl; repeat split; auto|].
+      destruct (parse (x :: b0)); simpl; unfold st_same; simpl; repeat split; auto. }
+    destruct eb; [simpl; unfold st_same; simpl; repeat split; auto|].
+    destruct (str_from bb lb) as [tl| | |]; cbn [rbind same_step]; auto.
+    destruct (starts_with slashes tl).
+    - cbn [rbind]. apply T. exact Hs.
+    - pose proof (next_loop_same fuel bb lb sa sb Hs) as L.
+      destruct (next_loop fuel bb lb sa) as [[[[b1 l1] e1] t1]| | |],
+               (next_loop fuel bb lb sb) as [[[[b2 l2] e2] t2]| | |]; cbn [same4] in L; try contradiction;
+        cbn [rbind same_step]; auto.
+      destruct L as (-> & -> & -> & Ht).
+      destruct e2; [simpl; unfold st_same; simpl; repeat split; auto|].
+      apply T. exact Ht.
+  Qed.
+
+  Lemma consume_same fuel : forall cfuel a b,
+    st_same a b -> consume parse fuel cfuel a = consume parse fuel cfuel b.
+  Proof.
+    induction cfuel as [|f IH]; intros a b H; simpl; [reflexivity|].
+    pose proof (reader_next_same fuel a b H) as L.
+    destruct (reader_next parse fuel a) as [[o1 a']| | |],
+             (reader_next parse fuel b) as [[o2 b']| | |]; simpl in L; try contradiction;
+      simpl; try congruence.
+    destruct L as [-> L]. destruct o2; auto. rewrite (IH a' b' L). reflexivity.
+  Qed.
+
+  Lemma run_reader_same s1 s2 :
+    concat s1 = concat s2 -> run_reader parse s1 = run_reader parse s2.
+  Proof.
+    intros H. unfold run_reader. rewrite (stream_fuel_concat s1 s2 H).
+    pose proof (reader_new_same (stream_fuel s2) s1 s2 H) as L.
+    destruct (reader_new (stream_fuel s2) s1), (reader_new (stream_fuel s2) s2);
+      simpl in L; try contradiction; simpl; try congruence.
+    apply consume_same. exact L.
+  Qed.
+End Chunks.
+
+(* ---- totality ---- *)
+
+Definition pres_total {A} (x : pres A) : Prop := x <> PIncomplete /\ x <> PFuel.
+
+Lemma error_from_total {A} (x : pres A) : pres_total x -> exists e, error_from x = Ok e.
+Proof. intros [H1 H2]. destruct x; simpl; eauto; congruence. Qed.
+
+(* the reader's invariant: `last` is the length of the buffer, or the offset of a line that
+   starts with "//" *)
+Definition inv (buf : str) (last : nat) : Prop :=
+  last = length buf \/
+  exists a b, buf = a ++ b /\ length a = last /\ starts_with slashes b = true.
+
+Lemma str_from_end buf : str_from buf (length buf) = Ok [].
+Proof.
+  unfold str_from. rewrite Nat.ltb_irrefl, skipn_all. reflexivity.
+Qed.
+
+Lemma str_from_app a b :
+  match b with [] => True | x :: _ => is_cont x = false end ->
+  str_from (a ++ b) (length a) = Ok b.
+Proof.
+  intros H. unfold str_from. rewrite app_length.
+  destruct (Nat.ltb_spec (length a + length b) (length a)) as [L|L]; [lia|].
+  rewrite skipn_app, skipn_all, Nat.sub_diag. simpl.
+  destruct b as [|x t]; [reflexivity|]. rewrite H. reflexivity.
+Qed.
+
+Lemma starts_with_slashes_head b : starts_with slashes b = true ->
+  match b with [] => True | x :: _ => is_cont x = false end.
+Proof.
+  destruct b as [|x t]; [auto|]. simpl. intros H. apply andb_true_iff in H. destruct H as [H _].
+  unfold beq in H. apply Byte.byte_dec_bl in H. subst x. reflexivity.
+Qed.
+
+Lemma inv_str_from buf last : inv buf last -> exists tl, str_from buf last = Ok tl.
+Proof.
+  intros [->|(a & b & -> & <- & H)].
+  - exists []. apply str_from_end.
+  - exists b. apply str_from_app, starts_with_slashes_head, H.
+Qed.
+
+Lemma valid_line_head line : utf8_valid line = true ->
+  match line with [] => True | x :: _ => is_cont x = false end.
+Proof. destruct line as [|x t]; [auto|]. apply utf8_valid_head. Qed.
+
+Section Total.
+  Variable parse : parser record.
+  Hypothesis parse_total : forall i, pres_total (parse i).
+
+  (* Reader::new's loop *)
+  Lemma new_loop_ok : forall fuel buf s,
+    nlines (concat s) < fuel ->
+    exists buf' last' e s',
+      new_loop fuel buf (length buf) s = Ok (buf', last', e, s') /\ inv buf' last' /\
+      nlines (concat s') <= nlines (concat s).
+  Proof.
+    induction fuel as [|f IH]; intros buf s L; [lia|]. cbn [new_loop].
+    destruct (read_line_cases s buf) as [(E & R & S')|(line & rest & E & Hne & Hn & S' & [[U R]|[U R]])].
+    - destruct (read_line s buf) as [[r b] s'] eqn:RL. cbn [fst snd] in *. inversion R; subst.
+      exists buf, (length buf), None, s'. split; [reflexivity|]. split; [left; reflexivity|].
+      rewrite S', E. lia.
+    - destruct (read_line s buf) as [[r b] s'] eqn:RL. cbn [fst snd] in *. inversion R; subst r b.
+      destruct (length line) as [|n] eqn:Len; [destruct line; [congruence|discriminate]|].
+      rewrite (str_from_app buf line (valid_line_head _ U)). cbn [rbind].
+      destruct (starts_with slashes line) eqn:SW.
+      + exists (buf ++ line), (length buf), None, s'. split; [reflexivity|].
+        split; [right; exists buf, line; auto|]. rewrite S', Hn. lia.
+      + specialize (IH (buf ++ line) s'). rewrite S' in IH.
+        destruct IH as (b' & l' & e' & s'' & H1 & H2 & H3); [lia|].
+        rewrite app_length, Len in H1. exists b', l', e', s''.
+        split; [exact H1|]. split; [exact H2|]. rewrite Hn. lia.
+    - destruct (read_line s buf) as [[r b] s'] eqn:RL. cbn [fst snd] in *. inversion R; subst r b.
+      exists buf, (length buf), (Some EIo), s'. split; [reflexivity|]. split; [left; reflexivity|].
+      rewrite S', Hn. lia.
+  Qed.
+
+  (* Iterator::next's loop: afterwards `last` is the length of the buffer; either nothing
+     was left to read (buffer unchanged) or the stream has fewer lines *)
+  Lemma next_loop_ok : forall fuel buf s,
+    nlines (concat s) < fuel ->
+    exists buf' io s',
+      next_loop fuel buf (length buf) s = Ok (buf', length buf', io, s') /\
+      ((buf' = buf /\ io = false /\ concat s' = [] /\ concat s = []) \/
+       nlines (concat s') < nlines (concat s)).
+  Proof.
+    induction fuel as [|f IH]; intros buf s L; [lia|]. cbn [next_loop].
+    destruct (read_line_cases s buf) as [(E & R & S')|(line & rest & E & Hne & Hn & S' & [[U R]|[U R]])].
+    - destruct (read_line s buf) as [[r b] s'] eqn:RL. cbn [fst snd] in *. inversion R; subst.
+      exists buf, false, s'. split; [reflexivity|]. left. auto.
+    - destruct (read_line s buf) as [[r b] s'] eqn:RL. cbn [fst snd] in *. inversion R; subst r b.
+      destruct (length line) as [|n] eqn:Len; [destruct line; [congruence|discriminate]|].
+      rewrite (str_from_app buf line (valid_line_head _ U)). cbn [rbind].
+      destruct (starts_with slashes line) eqn:SW.
+      + exists (buf ++ line), false, s'. rewrite app_length, Len. split; [reflexivity|].
+        right. rewrite S', Hn. lia.
+      + specialize (IH (buf ++ line) s'). rewrite S' in IH.
+        destruct IH as (b' & io' & s'' & H1 & H2); [lia|].
+        rewrite app_length, Len in H1. exists b', io', s''. split; [exact H1|].
+        right. rewrite Hn. destruct H2 as [(_ & _ & H2 & _)|H2]; [rewrite H2; simpl; unfold nlines; simpl|]; lia.
+    - destruct (read_line s buf) as [[r b] s'] eqn:RL. cbn [fst snd] in *. inversion R; subst r b.
+      exists buf, true, s'. split; [reflexivity|]. right. rewrite S', Hn. lia.
+  Qed.
+
+  Definition st_inv (st : rstate) : Prop := inv (st_buf st) (st_last st).
+
+  (* the consumer's measure *)
+  Definition measure (st : rstate) : nat :=
+    nlines (concat (st_src st)) + (match st_buf st with [] => 0 | _ => 1 end) + 1.
+
+  Lemma reader_new_ok fuel s :
+    nlines (concat s) < fuel ->
+    exists st, reader_new fuel s = Ok st /\ st_inv st /\
+               nlines (concat (st_src st)) <= nlines (concat s).
+  Proof.
+    intros L. unfold reader_new.
+    destruct (new_loop_ok fuel [] s L) as (b & l & e & s' & H1 & H2 & H3).
+    cbn [length] in H1. rewrite H1. cbn [rbind].
+    destruct (starts_with [x56; x56] b).
+    - destruct (parse_version b) as [v r| | | |] eqn:PV.
+      + eexists. split; [reflexivity|]. split; [left; reflexivity|exact H3].
+      + eexists. split; [reflexivity|]. split; [exact H2|exact H3].
+      + eexists. split; [reflexivity|]. split; [exact H2|exact H3].
+      + exfalso. pose proof (ParseProofs.parse_version_total b) as [T _]. congruence.
+      + exfalso. pose proof (ParseProofs.parse_version_total b) as [_ T]. congruence.
+    - eexists. split; [reflexivity|]. split; [exact H2|exact H3].
+  Qed.
+
+  Definition is_rec (o : outcome) : bool := match o with ORec _ => true | _ => false end.
+
+  Lemma reader_next_ok fuel st :
+    st_inv st -> nlines (concat (st_src st)) < fuel ->
+    exists o st', reader_next parse fuel st = Ok (o, st') /\ st_inv st' /\
+                  nlines (concat (st_src st')) <= nlines (concat (st_src st)) /\
+                  (is_rec o = true -> measure st' < measure st).
+  Proof.
+    intros I L. unfold reader_next. destruct st as [buf last err ver src]; cbn [st_buf st_last st_err st_version st_src] in *.
+    unfold st_inv in I; cbn in I.
+    destruct err as [e|].
+    { eexists _, _. split; [reflexivity|]. split; [exact I|]. split; [cbn [st_src]; lia|]. intros H; discriminate. }
+    destruct (inv_str_from buf last I) as [tl Htl]. rewrite Htl. cbn [rbind].
+    (* after the loop (or without it): buffer b, offset l, error flag, stream *)
+    assert (P : forall b l s' (guard : b <> [] -> measure (mkSt [] 0 None ver s') < measure (mkSt buf last None ver src)),
+              inv b l -> nlines (concat s') <= nlines (concat src) ->
+              exists o st',
+                (match b with
+                 | [] => Ok (OEnd, mkSt b l None ver s')
+                 | _ => match parse b with
+                        | POk r _ => Ok (ORec r, mkSt [] 0 None ver s')
+                        | bad => e <- error_from bad ;; Ok (OErr e, mkSt b l None ver s')
+                        end
+                 end) = Ok (o, st') /\ st_inv st' /\
+                nlines (concat (st_src st')) <= nlines (concat src) /\
+                (is_rec o = true -> measure st' < measure (mkSt buf last None ver src))).
+    { intros b l s' guard Ib Ls. destruct b as [|x b].
+      - eexists _, _. split; [reflexivity|]. split; [exact Ib|]. split; [exact Ls|]. intros H; discriminate.
+      - destruct (parse (x :: b)) as [r rest| | | |] eqn:PB.
+        + eexists _, _. split; [reflexivity|]. split; [left; reflexivity|]. split; [exact Ls|].
+          intros _. apply guard. discriminate.
+        + eexists _, _. split; [reflexivity|]. split; [exact Ib|]. split; [exact Ls|]. intros H; discriminate.
+        + eexists _, _. split; [reflexivity|]. split; [exact Ib|]. split; [exact Ls|]. intros H; discriminate.
+        + exfalso. destruct (parse_total (x :: b)) as [T _]. congruence.
+        + exfalso. destruct (parse_total (x :: b)) as [_ T]. congruence. }
+    destruct (starts_with slashes tl) eqn:SW.
+    - cbn [rbind]. apply P; [|exact I|lia].
+      intros Hb. unfold measure; cbn [st_src st_buf]. destruct buf; [congruence|]. lia.
+    - (* the loop runs: last = length buf *)
+      assert (last = length buf) as ->.
+      { destruct I as [->|(a & b & -> & <- & H)]; [reflexivity|].
+        rewrite (str_from_app a b (starts_with_slashes_head _ H)) in Htl. inversion Htl; subst. congruence. }
+      destruct (next_loop_ok fuel buf src L) as (b' & io & s' & H1 & H2).
+      rewrite H1. cbn [rbind].
+      assert (Ls : nlines (concat s') <= nlines (concat src)).
+      { destruct H2 as [(_ & _ & -> & ->)|H2]; lia. }
+      destruct io.
+      + eexists _, _. split; [reflexivity|]. split; [left; reflexivity|]. split; [exact Ls|]. intros H; discriminate.
+      + apply P; [|left; reflexivity|exact Ls].
+        intros Hb. unfold measure; cbn [st_src st_buf].
+        destruct H2 as [(-> & _ & -> & ->)|H2].
+        * destruct buf; [congruence|]. lia.
+        * destruct buf; lia.
+  Qed.
+
+  (* outcome sequences of a consumer: records, then one error or the end of input *)
+  Definition shape (l : list outcome) : Prop :=
+    exists rs o, l = map ORec rs ++ [o] /\ is_rec o = false.
+
+  Lemma consume_ok fuel : forall cfuel st,
+    st_inv st -> nlines (concat (st_src st)) < fuel -> measure st <= cfuel ->
+    exists l, consume parse fuel cfuel st = Ok l /\ shape l.
+  Proof.
+    induction cfuel as [|f IH]; intros st I L M; [unfold measure in M; lia|].
+    cbn [consume].
+    destruct (reader_next_ok fuel st I L) as (o & st' & H1 & H2 & H3 & H4).
+    rewrite H1. cbn [rbind].
+    destruct o as [r|e|].
+    - destruct (IH st' H2) as (l & Hl & (rs & o & -> & Ho)); [lia|specialize (H4 eq_refl); lia|].
+      rewrite Hl. cbn [rbind]. eexists. split; [reflexivity|].
+      exists (r :: rs), o. split; [reflexivity|exact Ho].
+    - eexists. split; [reflexivity|]. exists [], (OErr e). split; reflexivity.
+    - eexists. split; [reflexivity|]. exists [], OEnd. split; reflexivity.
+  Qed.
+
+  Theorem run_reader_total s : exists l, run_reader parse s = Ok l /\ shape l.
+  Proof.
+    unfold run_reader. pose proof (stream_fuel_ge s) as F.
+    destruct (reader_new_ok (stream_fuel s) s) as (st & H1 & H2 & H3); [lia|].
+    rewrite H1. cbn [rbind].
+    apply consume_ok; [exact H2|lia|].
+    unfold measure. destruct (st_buf st); lia.
+  Qed.
+End Total.
